@@ -1324,7 +1324,7 @@ static std::string op_poly(const std::vector<std::string>& w)
         }
         return poly_coeffs(p);
     }
-    if (k == "solve") {
+    if (k == "solve" || k == "solve32") {
         sb_poly_t p = poly_of(w[2]);
         float roots[8];
         uint8_t n = 99;
